@@ -52,8 +52,14 @@ StartSignals(e) == SelectSeq(e.signals, LAMBDA s : s.action = "start")
 Pick(e) == IF Len(StartSignals(e)) > 0 THEN StartSignals(e)[Len(StartSignals(e))].to
            ELSE IF e.ctl.maxRev # "" THEN e.ctl.maxRev ELSE e.a.a
 
+\* A logged choice the specification cannot even consider (a replica that is not
+\* registered any more) must not disable the step: the registrant stands in and the
+\* Signals rule reports the difference.
+LegalPick(e) == LET p == Pick(e) IN
+    IF p \in Addr /\ (p = e.a.a \/ (reg[p].on /\ ~(signalled /\ p = maxRev))) THEN p ELSE e.a.a
+
 SpecStep(e) ==
-    CASE e.ev = "Register"  -> Register(e.a.a, e.a.rev, e.a.st, e.a.sf, e.a.af, Pick(e))
+    CASE e.ev = "Register"  -> Register(e.a.a, e.a.rev, e.a.st, e.a.sf, e.a.af, LegalPick(e))
       [] e.ev = "Start"     -> Start(e.a.a, e.a.cf)
       [] e.ev = "AddCheck"  -> AddCheck(e.a.a, TK(e.a.a))
       [] e.ev = "Add"       -> AddCheck(e.a.a, TK(e.a.a))
@@ -69,13 +75,21 @@ SpecStep(e) ==
             THEN /\ Called("MonitorRun", [a |-> e.a.a]) /\ res' = "ok" /\ sig' = <<>> /\ served' = ""
                  /\ UNCHANGED <<ctl, env, acked, nextW, calls>>
             ELSE MonitorRun(e.a.a)
+      [] e.ev \in {"Write", "Read"} /\ "oob" \in DOMAIN e.a -> OobIO(e.ev)
       [] e.ev \in {"Write", "Sync", "Unmap"} ->
             Mutate(e.ev, SeqSet(e.a.A), e.a.w,
                    IF e.a.mode \in {"stall", "drop"} THEN SeqSet(e.a.A) \cap Writers ELSE {})
       [] e.ev = "Read"      ->
-            LET T == SeqSet(e.T) \cap SeqSet(e.a.A) \cap Readers
-            IN Read(SeqSet(e.a.A), T, IF e.res = "ok" /\ e.served \in Addr THEN e.served ELSE "",
-                    IF e.a.mode \in {"stall", "drop"} THEN T ELSE {})
+            \* the logged choices (who was tried, who served) are taken where the
+            \* specification allows them; where it does not, a legal choice stands in and
+            \* the rules Result / ServedBy / Touched report the difference
+            LET A   == SeqSet(e.a.A)
+                all == Readers \subseteq A
+                T   == IF all THEN Readers ELSE SeqSet(e.T) \cap A \cap Readers
+                s0  == IF e.res = "ok" /\ e.served \in Addr THEN e.served ELSE ""
+                okS == Readers \ A
+                s   == IF all \/ Readers = {} THEN "" ELSE IF s0 \in okS THEN s0 ELSE CHOOSE x \in okS : TRUE
+            IN Read(A, T, s, IF e.a.mode \in {"stall", "drop"} THEN T ELSE {})
       [] e.ev = "Snapshot"  -> Snapshot(e.a.name, SeqSet(e.a.S))
       [] e.ev = "PresetRev" -> PresetRev(e.a.a, e.a.rev)
       [] e.ev = "ReplicaRestart" ->
@@ -93,6 +107,28 @@ Fail(rules) ==
                    acked |-> acked, pre |-> prev.cmode, prero |-> prev.readOnly, served |-> served,
                    reg |-> [a \in Addr |-> reg[a].rev], regst |-> [a \in Addr |-> reg[a].st]]])
 
+OkClass(r) == r = "ok"
+IsPartial(e) == "partial" \in DOMAIN e /\ e.partial
+FailP(rules) ==
+    failed' = Append(failed,
+        [t |-> E.t, seq |-> E.seq, ev |-> E.ev, a |-> E.a, rules |-> rules,
+         logged |-> [res |-> E.res, err |-> E.err, replicas |-> << >>, readOnly |-> readOnly,
+                     checkpoint |-> "", signals |-> <<>>, touched |-> E.touched],
+         spec |-> [res |-> res', cmode |-> cmode', readOnly |-> readOnly', rwCount |-> rwCount',
+                   checkpoint |-> checkpoint', maxRev |-> maxRev', signalled |-> signalled', sig |-> sig',
+                   acked |-> acked', pre |-> cmode, prero |-> readOnly, served |-> served',
+                   reg |-> [a \in Addr |-> reg'[a].rev], regst |-> [a \in Addr |-> reg'[a].st]]])
+
+FailH ==
+    failed' = Append(failed,
+        [t |-> E.t, seq |-> E.seq, ev |-> E.ev, a |-> E.a, rules |-> {"Hang"},
+         logged |-> [res |-> E.res, err |-> E.err, replicas |-> << >>, readOnly |-> readOnly,
+                     checkpoint |-> "", signals |-> <<>>, touched |-> <<>>],
+         spec |-> [res |-> res, cmode |-> cmode, readOnly |-> readOnly, rwCount |-> rwCount,
+                   checkpoint |-> checkpoint, maxRev |-> maxRev, signalled |-> signalled, sig |-> sig,
+                   acked |-> acked, pre |-> cmode, prero |-> readOnly, served |-> served,
+                   reg |-> [a \in Addr |-> reg[a].rev], regst |-> [a \in Addr |-> reg[a].st]]])
+
 Apply ==
     /\ phase = "apply" /\ l <= Len(Trace)
     /\ IF E.ev = "Init" THEN
@@ -102,9 +138,28 @@ Apply ==
        ELSE IF skipping THEN
             /\ l' = l + 1
             /\ UNCHANGED <<vars, phase, skipping, failed, ntraces, prev>>
-       ELSE IF E.ev \in {"Hang", "Panic"} THEN
+       ELSE IF E.ev = "Hang" THEN       \* an operation that never returned (record without state)
+            /\ FailH /\ skipping' = TRUE /\ l' = l + 1
+            /\ UNCHANGED <<vars, phase, ntraces, prev>>
+       ELSE IF E.ev = "Panic" THEN
             /\ Fail({E.ev}) /\ skipping' = TRUE /\ l' = l + 1
             /\ UNCHANGED <<vars, phase, ntraces, prev>>
+       ELSE IF IsPartial(E) /\ ENABLED SpecStep(E) THEN
+            \* one of several concurrent calls (harness op Race), placed by the driver in an
+            \* order the observations allow: applied; result and replicas reached are judged
+            \* here, the closing record of the group carries the state
+            /\ SpecStep(E)
+            /\ prev' = Pre
+            /\ l' = l + 1
+            /\ LET td == SeqSet(E.touched)
+                   rs == (IF OkClass(E.res) # OkClass(res') THEN {"Result"} ELSE {})
+                         \cup (IF E.ev = "Write" /\ td # {a \in Addr : calls'[a] # calls[a]} THEN {"Touched"} ELSE {})
+                         \cup (IF E.ev = "Write" /\ td # {} /\ (readOnly \/ Cardinality(RWs(cmode)) < Quorum)
+                               THEN {"WriteGate"} ELSE {})
+                         \cup (IF \E a \in td : cmode[a] = "NONE" THEN {"RemovedSilent"} ELSE {})
+               IN IF rs = {} THEN UNCHANGED <<failed, skipping>>
+                  ELSE FailP(rs) /\ skipping' = TRUE
+            /\ UNCHANGED <<phase, ntraces>>
        ELSE IF ENABLED SpecStep(E) THEN
             /\ SpecStep(E)
             /\ prev' = Pre
@@ -126,7 +181,6 @@ Add2 ==
             /\ UNCHANGED <<vars, l, skipping, failed, ntraces, prev>>
 
 \* ---- compare -----------------------------------------------------------------
-OkClass(r) == r = "ok"
 LoggedModes(m) == [a \in Addr |-> IF a \in DOMAIN m THEN m[a] ELSE "NONE"]
 UserSnapNames(nd) == DOMAIN nd.snapat
 
@@ -179,6 +233,8 @@ Rules(e) ==
     \cup (IF e.ev = "Read" /\ res = "ok" /\ served # "" /\
              (prev.cmode[served] # "RW" \/ ~(prev.acked \subseteq prev.rlog[served]))
           THEN {"ReadFresh"} ELSE {})
+    \cup (IF e.ev = "Read" /\ e.res = "ok" /\ res = "ok" /\ e.served \in Addr /\ e.served # served
+          THEN {"ServedBy"} ELSE {})
     \cup (IF e.ev \in {"Write", "Sync", "Unmap"} /\ touched # {} /\
              (prev.readOnly \/ Cardinality(RWs(prev.cmode)) < Quorum)
           THEN {"WriteGate"} ELSE {})
